@@ -92,6 +92,15 @@ theorem C35_checked_services (st : St) (t : Tok) (h : findSession st t = none) (
       handlerOf_deleteSubscriptions, handlerOf_createMonitoredItems, handlerOf_setMonitoringMode,
       handlerOf_deleteMonitoredItems, h]
 
+/-- Signed and encrypted channels: ActivateSession checks the client signature — a wrong one is refused
+    with BadSecurityChecksFailed and changes nothing, a right one activates — but that is all the
+    signature is good for … -/
+theorem C35_activation_signed (st : St) (t : Tok) (x : Session) (h : findSession st t = some x)
+    (hr : x.certRsa = true) :
+    step st t (.activateSession true false) = (st, .fault "BadSecurityChecksFailed") ∧
+    (step st t (.activateSession true true)).2 = .ok "" := by
+  constructor <;> simp [step, Req.name, handlerOf_activateSession, body, h, hr]
+
 /-- the guard under which C35 holds: the handler looks the session up and nil-checks it
     (per the regenerated table) and the token is not in the session table -/
 def guard (st : St) (t : Tok) (r : Req) : Bool :=
@@ -207,6 +216,14 @@ theorem C35_finding_not_activated :
     step st1 2 (.write 9) = ({ st1 with value := 9 }, .ok "Good") ∧
     (step st1 2 (.createSubscription .huge)).2 = .ok "" ∧
     classify35 st1 2 .publish = "C35.not-activated-session-accepted" := by decide
+
+/-- … the session whose activation was REFUSED is served like an activated one (same finding
+    C35.not-activated-session-accepted; channel security plays no role in any handler) -/
+theorem C35_finding_refused_activation_still_served :
+    step st1 2 (.activateSession true false) = (st1, .fault "BadSecurityChecksFailed") ∧
+    notActivated st1 2 = true ∧
+    step st1 2 .read = (st1, .ok "Good") ∧
+    step st1 2 (.write 9) = ({ st1 with value := 9 }, .ok "Good") := by decide
 
 /-- the property at full strength does not hold for the code as it is -/
 theorem C35_full_false : ¬ ∀ st t r, Holds st t r := by
